@@ -154,12 +154,15 @@ fn rewrite(m: &MMappings, tr: &dyn Fn(&S) -> S, dtr: &dyn Fn(&S) -> S) -> Expect
 	Expect::Ok(out)
 }
 
-/// what applying the table to the mappings should give (tables must be acyclic)
+/// what applying the table to the mappings should give; a cyclic table (the given one or its image
+/// in the target namespace) is an error
 pub fn ref_apply(m: &MMappings, t: &MTable, t_mapped: &MTable) -> Expect {
+	if !acyclic(t) || !acyclic(t_mapped) { return Expect::Err; }
 	let (ix, ix2) = (index(t), index(t_mapped));
 	rewrite(m, &|c| ref_tr(&ix, c).expect("acyclic"), &|c| ref_tr(&ix2, c).expect("acyclic"))
 }
 pub fn ref_undo(m: &MMappings, t: &MTable) -> Expect {
+	if !acyclic(t) { return Expect::Err; }
 	let ix = index(t);
 	// image -> class; the last entry of the table with that image wins
 	let mut inv: HashMap<S, S> = HashMap::new();
